@@ -80,6 +80,7 @@ pub mod frp_m {
 use super::*;
 impl CanonicalRequest {
 //@ fn canonical.rs impl CanonicalRequest :: from_request_parts
+//@ params parts body options
 //@ hideutf8
 //@ props C08 C01 C09 C10 C11 C12 C13 C15 C17
 //@ ret r
@@ -228,6 +229,7 @@ pub trait IntoRequestBytesBody: Sized {
 impl IntoRequestBytesBody for () {
     open spec fn bytes_of(self) -> Seq<u8> { Seq::<u8>::empty() }
 //@ fn signature.rs impl IntoRequestBytes for () :: into_request_bytes
+//@ params
 //@ props C08 C15
 //@ ret r
 //@ replace 1 `async fn` => `fn`
@@ -236,6 +238,7 @@ impl IntoRequestBytesBody for () {
 impl IntoRequestBytesBody for Vec<u8> {
     open spec fn bytes_of(self) -> Seq<u8> { self@ }
 //@ fn signature.rs impl IntoRequestBytes for Vec<u8> :: into_request_bytes
+//@ params
 //@ props C08 C15
 //@ ret r
 //@ replace 1 `async fn` => `fn`
@@ -244,6 +247,7 @@ impl IntoRequestBytesBody for Vec<u8> {
 impl IntoRequestBytesBody for Bytes {
     open spec fn bytes_of(self) -> Seq<u8> { self.data }
 //@ fn signature.rs impl IntoRequestBytes for Bytes :: into_request_bytes
+//@ params
 //@ props C08 C15
 //@ ret r
 //@ replace 1 `async fn` => `fn`
@@ -359,6 +363,7 @@ pub open spec fn refused_after_rule_9<G>(parts: Parts, body: Bytes, options: Sig
 pub mod validate_m {
 use super::*;
 //@ fn signature.rs sigv4_validate_request
+//@ params request region service get_signing_key server_timestamp required_headers options
 //@ hideutf8
 //@ props C08 C01 C02 C04 C13 C14 C15 C17
 //@ ret r
